@@ -21,7 +21,7 @@ tbl = "| seed | property | change | needs to manifest | confirmed | detected by 
 p = os.path.join(V, "DESIGN.md")
 s = open(p).read()
 i = s.index("<!-- SEEDTABLE -->")
-j = s.index("\n## 6. ", i)
+j = s.index("\n<!-- /SEEDTABLE -->", i)
 s = s[:i] + "<!-- SEEDTABLE -->\n" + tbl + "\n" + s[j:]
 open(p, "w").write(s)
 print(len(rows), "seeds")
